@@ -328,8 +328,8 @@ def c12(tier, seed):
 
 
 def c18(tier, seed):
-    return dict(runs=fb_plan(tier, seed, "h_sync", "spin", ["SPIN_TICKET", "CPU_RELAX"], 20, 80, threads_q=(2, 4, 8), threads_t=(2, 3, 4, 8, 16),
-                             extra=dict(livelock_prop="C18", livelock_hits=2000000000000, iters=150, watchdog_s=300), stall_every=50, tsan=True, tsan_judged=False),
+    return dict(runs=fb_plan(tier, seed, "h_sync", "spin", ["SPIN_TICKET", "CPU_RELAX"], 20, 60, threads_q=(2, 4, 8), threads_t=(2, 3, 4, 6, 8),
+                             extra=dict(livelock_prop="C18", livelock_hits=2000000000000, iters=150), stall_every=50, tsan=True, tsan_judged=False),
                 rule=TRIAL_RULE + "Spinlock used from fibers that never yield while holding it; counters preset just below 2^32. Oracles: occupancy, "
                 "now-serving values seen by holders are consecutive (mod 2^32) and equal the ticket taken, trylock neither spins nor switches, plain "
                 "payload (TSan), ticket==users at the end.",
